@@ -5,77 +5,10 @@ import os
 V = os.path.dirname(os.path.dirname(os.path.abspath(__file__)))
 BASE = json.load(open("/root/.vp/BASELINE.json"))["cmd"].replace("--junitxml=<file>", "").strip()
 
-CLAIMED = {
-    "C03": {
-        "text": "Unbounded Coq theorems over every topologically ordered packed forest: len = number of represented trees, "
-                "forest[i] = i-th tree of the enumeration (one decoder for lazy/non-lazy), IndexError exactly out of range; "
-                "model tied to /repo by running it on the forests the impl returns (counts, ambiguities, every sampled index, "
-                "first tree, out-of-range indices) plus an extraction-vs-vm_compute cross-check.",
-        "note": "Trusted: Coq kernel, extraction (ExtrOcamlBasic), OCaml driver, forest dump and generators. Cyclic forests "
-                "(LoopError clause) and duplicate alternatives are decided by the harness on impl forests, not by a theorem. "
-                "Known finding KF-C03-duplicate-packing.",
-        "technique": "Coq proof over a Gallina model of forest counting/indexing + differential correspondence on impl forests",
-        "design": "DESIGN.md section 7, C03",
-    },
-    "C04": {
-        "text": "Unbounded Coq theorems: table_struct (a boolean validator run on the impl's real table with the impl's own "
-                "LR(0) item sets) implies that every accepting run of the nondeterministic LR machine N(T) -- hence of the LR "
-                "driver model under every scanner, layout function and strategy -- returns a derivation tree rooted in the start "
-                "symbol whose leaves are the shifted tokens; tree_ok is an exact derivation checker. Driver, scanner and layout "
-                "models are tied to /repo by differential runs (8 option combinations, trees with positions/layout, error kind "
-                "and position); exactness for deterministic tables is decided against a reference parser whose derivations are "
-                "certified by tree_ok, and GLR is compared on those tables.",
-        "note": "Partial: no completeness theorem for deterministic tables yet (that half is differential + certified oracle). "
-                "Trusted: Coq kernel, extraction, OCaml driver, table/grammar/forest dumps, match matrix from the impl's recognizers.",
-        "technique": "Coq-verified table validator + N(T) soundness theorem + LR driver simulation proof; differential correspondence",
-        "design": "DESIGN.md section 7, C04",
-    },
-    "C01": {
-        "text": "Unbounded Coq theorem C01_forest_valid: the local boolean check forest_ok, run on every forest the impl "
-                "returns, implies that EVERY tree of that forest (any number, any sharing) is a derivation tree of the input "
-                "(productions applied in order, root = start symbol, leaves = a tokenisation of the input with layout only "
-                "between/after tokens); C01_nlr_sound: any accepting run over a table passing table_struct yields a derivation. "
-                "The 'sentence => accepted' direction is decided per case against a reference recognizer whose derivations are "
-                "certified by the proved-exact checker tree_ok.",
-        "note": "Partial: no model of the GLR driver and no completeness theorem; cyclic forests are not validated by forest_ok. "
-                "Trusted: Coq kernel, extraction, OCaml driver, forest/table dumps, match matrix from the impl's recognizers.",
-        "technique": "Coq-verified forest validator on impl artefacts + N(T) soundness theorem; certified reference recognizer",
-        "design": "DESIGN.md section 7, C01",
-    },
-    "C02": {
-        "text": "The universal claim is refuted on the unchanged tree: theorem C02_refuted exhibits a certified derivation absent "
-                "from the forest the impl returns (known finding KF-C02-lost-derivations). The check enumerates reference "
-                "derivations, certifies each with tree_ok (proved exact) and searches it in root_trees of the impl forest (the "
-                "specification tied to len/forest[i] by the C03 theorems); an absent derivation is a certified counterexample, "
-                "attributed to the known finding only when the frozen baseline implementation loses exactly the same derivations.",
-        "note": "No theorem about the GLR driver (not modelled); completeness of the reference enumerator is not proved. "
-                "Trusted: Coq kernel, extraction, harness dumps, baseline snapshot used only to classify known-finding instances.",
-        "technique": "Coq refutation witness + verified derivation checker and forest enumeration; certified differential oracle",
-        "design": "DESIGN.md section 7, C02",
-    },
-    "C19": {
-        "text": "Unbounded Coq theorems over a Gallina model of parglare's string terminals: StringRecognizer matches at p iff the "
-                "text of the input at p is the terminal's text (up to case with ignore_case), for every text; the keyword "
-                "recognizer \\b<text>\\b equals whole-word literal matching for every text that begins and ends with a word "
-                "character; the two un-escape passes equal the conventional single-pass reading for every body without an "
-                "escaped backslash; the front end (inline string -> terminal named by its text, symbol table, override check, "
-                "reference resolution, keyword rewrite) succeeds and yields exactly the declarative reading (one literal "
-                "terminal per distinct text, as if declared) for every grammar whose inline texts avoid '.', newline/tab and "
-                "symbol names; keyword terminals sort and get finish flags exactly like string terminals. Refutation witnesses "
-                "for the excluded classes. Model tied to /repo by differential runs: un-escaped values, Grammar.from_string "
-                "outcome and terminals/productions, recognizer match matrices at every position, per-state action order and "
-                "finish flags; plus a property-level oracle (inline vs declared twin, literal/whole-word reference scanner vs "
-                "the parser's token stream).",
-        "note": "Partial: the renaming step (declared twin with fresh names ~ inline form) is checked differentially, not proved; "
-                "keyword texts with regex metacharacters are outside the recognizer model (regex engine not modelled). ASCII only. "
-                "Known findings: KF-C19-inline-named-by-text, KF-C19-keyword-raw-regex, KF-C19-keyword-boundary-nonword-edge, "
-                "KF-C19-double-unescape. Trusted: Coq kernel, extraction, OCaml driver, Python re as oracle for KEYWORD/ID regexes, "
-                "generators and dumps.",
-        "technique": "Coq proofs over a Gallina model of recognizers/un-escaping/front end/sort key + differential correspondence "
-                     "and reference scanner",
-        "design": "DESIGN.md section 7, C19",
-    },
-}
+CLAIMED = {}
+for _f in sorted(os.listdir(os.path.join(V, "harness", "manifest"))):
+    if _f.endswith(".json"):
+        CLAIMED[_f[:-5]] = json.load(open(os.path.join(V, "harness", "manifest", _f)))
 
 NOT_YET = "machinery for this property is not built yet in this commit (planned, see DESIGN.md section 12)"
 
